@@ -76,13 +76,21 @@ func (w *zzC20World) known(h chainhash.Hash) bool {
 	return d != nil
 }
 
-func zzNewC20World() *zzC20World {
+func zzNewC20World() *zzC20World { return zzNewC20WorldAmt(0) }
+
+// zzNewC20WorldAmt: amt > 0 fixes the funding amount (callers that pass it
+// through float conversions, such as ListUnspent's BTC amounts).
+func zzNewC20WorldAmt(amt int64) *zzC20World {
 	w := &zzC20World{zzWalletWorld: zzNewWalletWorld(10001, 3)}
 	w.recvAddr = w.newAddress(waddrmgr.KeyScopeBIP0084, false)
 	w.changeAddr = w.newAddress(waddrmgr.KeyScopeBIP0084, true)
 	w.change2 = w.newAddress(waddrmgr.KeyScopeBIP0084, true)
-	w.fundAmt = verifrt.I64("fund")
-	verifrt.Assume(verifrt.And(w.fundAmt >= 100000, w.fundAmt <= 2_000_000_000_000))
+	if amt > 0 {
+		w.fundAmt = amt
+	} else {
+		w.fundAmt = verifrt.I64("fund")
+		verifrt.Assume(verifrt.And(w.fundAmt >= 100000, w.fundAmt <= 2_000_000_000_000))
+	}
 	w.fund = zzPayTo(w.recvAddr, w.fundAmt, 1)
 	rec, err := wtxmgr.NewTxRecordFromMsgTx(w.fund, time.Unix(1600000000, 0))
 	zzW(err)
